@@ -238,19 +238,33 @@ def cc_lib_objects(tag, extra=(), san=True, exclude=(), compiler="gcc"):
     return objs
 
 
+HANG_BUDGET = 3
+_hangs = {}
+
+
 def run_lines(binary, lines, timeout=600, env=None):
-    """feed script lines to a line-protocol binary; returns (out_lines, rc, stderr)"""
+    """feed script lines to a line-protocol binary; returns (out_lines, rc, stderr).
+    A harness that makes no progress on one script line for 60 s is ended by its own watchdog (harness/common/lp.h,
+    exit code 124).  A hang is a violation in itself; after HANG_BUDGET hangs of one binary in this run the remaining
+    scripts for it are not executed any more (they are answered with the same exit code at once), so that a change that
+    makes the daemon deadlock is reported within minutes instead of after cases x watchdog seconds."""
+    if _hangs.get(binary, 0) >= HANG_BUDGET:
+        return [], 124, "lp-watchdog: HANG (not run: this harness already hung %d times in this run)" % _hangs[binary]
     data = "\n".join(lines) + "\n"
     e = dict(os.environ)
     e.setdefault("ASAN_OPTIONS", "detect_leaks=1:abort_on_error=0:allocator_may_return_null=1")
     e.setdefault("UBSAN_OPTIONS", "print_stacktrace=1")
+    e.setdefault("LP_WATCHDOG", "60")
     if env:
         e.update(env)
     try:
         r = subprocess.run([binary], input=data, stdout=subprocess.PIPE, stderr=subprocess.PIPE,
                            text=True, errors="replace", timeout=timeout, env=e)
+        if r.returncode == 124 and "lp-watchdog" in r.stderr:
+            _hangs[binary] = _hangs.get(binary, 0) + 1
         return r.stdout.splitlines(), r.returncode, r.stderr
     except subprocess.TimeoutExpired as ex:
+        _hangs[binary] = _hangs.get(binary, 0) + 1
         so = ex.stdout.decode(errors="replace") if isinstance(ex.stdout, bytes) else (ex.stdout or "")
         return so.splitlines(), -999, "TIMEOUT"
 
